@@ -40,6 +40,19 @@ def _absval(v, env):
         return env.get(v.id)
     if isinstance(v, ast.Constant) and isinstance(v.value, bool):
         return "true" if v.value else "false"
+    sym = _symconst(v)
+    if sym is not None:
+        return sym
+    return None
+
+
+def _symconst(v):
+    """`Mode.PREFIX` (a member of a class: two members of one class are distinct objects when they are spelled
+    differently -- enum members, class-level sentinels) / an int literal, as an abstract constant."""
+    if isinstance(v, ast.Attribute) and isinstance(v.value, ast.Name) and v.value.id.lstrip("_")[:1].isupper() and v.attr.isupper():
+        return f"sym:{v.value.id}.{v.attr}"
+    if isinstance(v, ast.Constant) and isinstance(v.value, int) and not isinstance(v.value, bool):
+        return f"sym:int:{v.value}"
     return None
 
 
@@ -50,6 +63,11 @@ def env_truth(e):
         return env[e.id] in ("nonempty", "true")
     if isinstance(e, ast.Compare) and len(e.ops) == 1 and isinstance(e.left, ast.Name) and e.left.id in env:
         c, op = e.comparators[0], e.ops[0]
+        if env[e.left.id].startswith("sym:") and isinstance(op, (ast.Is, ast.IsNot, ast.Eq, ast.NotEq)):
+            other = _symconst(c)
+            if other is not None and other.rsplit(".", 1)[0] == env[e.left.id].rsplit(".", 1)[0] or (other is not None and other.startswith("sym:int:") and env[e.left.id].startswith("sym:int:")):
+                v = other == env[e.left.id]
+                return v if isinstance(op, (ast.Is, ast.Eq)) else not v
         if isinstance(c, ast.Constant) and c.value == "" and isinstance(op, (ast.Eq, ast.NotEq)) and env[e.left.id] in ("empty", "nonempty"):
             v = env[e.left.id] == "empty"
             return v if isinstance(op, ast.Eq) else not v
@@ -94,11 +112,15 @@ def eval_bool(e, atom: Callable):
 
 
 def simulate(cfg, start, stop: Callable, test_oracle: Callable, raise_oracle: Optional[Callable] = None,
-             event_of: Optional[Callable] = None, limit: int = 4000, env0: Optional[dict] = None) -> list:
+             event_of: Optional[Callable] = None, limit: int = 4000, env0: Optional[dict] = None,
+             bool_values: Optional[Callable] = None, for_exits: bool = False) -> list:
     """Walk from `start` until stop(node) is true.  test_oracle(node) -> True/False/None for
     test/while nodes; raise_oracle(node) -> None (does not raise) or an exception kind to follow
     (the node's edge labelled with that kind, or 'e').  event_of(node) -> str|None records events.
-    Unknown conditions explore both branches; un-modelled exceptional edges are not followed."""
+    Unknown conditions explore both branches; un-modelled exceptional edges are not followed.
+    bool_values: atom oracle used to evaluate the right-hand side of `flag = <boolean expression>`
+    (the local then is a verdict variable); for_exits: also follow the exit edge of `for` headers
+    (zero or more iterations) instead of walking one iteration only."""
     outs = []
     stack = [(start, (), (), tuple(sorted((env0 or {}).items())))]
     seen = set()
@@ -129,6 +151,10 @@ def simulate(cfg, start, stop: Callable, test_oracle: Callable, raise_oracle: Op
                         d.pop(x.id, None)
             if len(tgts) == 1 and isinstance(tgts[0], ast.Name) and getattr(node.ast, "value", None) is not None:
                 av = _absval(node.ast.value, dict(env))
+                if av is None and bool_values is not None and isinstance(node.ast.value, (ast.Compare, ast.BoolOp, ast.UnaryOp)):
+                    bv = eval_bool(node.ast.value, bool_values)
+                    if bv is not None:
+                        av = "true" if bv else "false"
                 if av is not None:
                     d[tgts[0].id] = av
             env_after = tuple(sorted(d.items()))
@@ -137,6 +163,12 @@ def simulate(cfg, start, stop: Callable, test_oracle: Callable, raise_oracle: Op
             if ev:
                 events = events + (ev,)
         rk = raise_oracle(node) if raise_oracle is not None else None
+        if isinstance(rk, tuple) and rk and rk[0] == "maybe":
+            # may raise: the exceptional continuation is explored in addition to the normal one
+            tgt = [s for k, s in node.succ if k == rk[1]] or [s for k, s in node.succ if k == "e"]
+            if tgt:
+                stack.append((_through_dispatch(tgt[0], rk[1]), events, path, env))
+            rk = None
         if rk is not None:
             tgt = [s for k, s in node.succ if k == rk] or [s for k, s in node.succ if k == "e"]
             if not tgt:
@@ -154,7 +186,7 @@ def simulate(cfg, start, stop: Callable, test_oracle: Callable, raise_oracle: Op
             continue
         for k, s in node.succ:
             if k in ("n", "ret", "brk", "cont", "loop", "done", "fall", "caught"):
-                if node.kind == "for" and k == "done":
+                if node.kind == "for" and k == "done" and not for_exits:
                     continue  # one iteration at a time: the caller decides what the header means
                 stack.append((s, events, path, env_after))
     _ENV.clear()
